@@ -202,7 +202,9 @@ fn test(c: &Case, st: &mut Stats) -> TestResult {
         }
         Case::Builder(spec) => {
             let m = spec.materialise().map_err(|e| Fail::new("harness", e))?;
-            let mut b = match spec.builder(&m) {
+            // half of the programs also serialise / measure the unfinished builder between additions
+            let observe = if digest(spec) & 1 == 0 { 0 } else { digest(&(spec, "observe")) | 1 };
+            let mut b = match spec.builder_observed(&m, observe) {
                 Ok(b) => b,
                 Err(_) => {
                     st.class("builder refused an attribute (C11's business)");
